@@ -35,9 +35,12 @@ class Gen:
 
     def stmt(self, depth):
         r = self.rnd.random()
-        if depth > 0 and r < 0.16:
+        if depth > 0 and r < 0.13:
             kind = self.rnd.choice(["args", "args", "k0_3_2", "k0_48_32", "k0_2_1", "k0_1_1", "k16_56_32"])
             return ("for", self.block(depth - 1, self.rnd.randint(2, 4)), kind)
+        if depth > 0 and r < 0.20:
+            return ("if", self.rnd.randrange(2), self.block(depth - 1, self.rnd.randint(1, 3)),
+                    self.block(depth - 1, self.rnd.randint(1, 3)) if self.rnd.random() < 0.6 else None)
         if r < 0.28 and self.nview < 3:
             self.nview += 1
             nm = f"%v{self.nview}"
@@ -89,6 +92,13 @@ def render(prog, deallocs):
                 L.append(P + '"snax.cluster_sync_op"() : () -> ()')
             elif s[0] == "view":
                 L.append(P + f"{s[1]} = memref.subview {s[2]}[{s[3]}] [4] [1] : {T8} to {T4}")
+            elif s[0] == "if":
+                L.append(P + f"scf.if %c{s[1]} {{")
+                emit(s[2], ind + 1)
+                if s[3] is not None:
+                    L.append(P + "} else {")
+                    emit(s[3], ind + 1)
+                L.append(P + "}")
             elif s[0] == "for":
                 n[0] += 1
                 kind = s[2] if len(s) > 2 else "args"
@@ -105,7 +115,7 @@ def render(prog, deallocs):
     de = "\n".join(f'    "memref.dealloc"(%a{i}) {{tag = {900 + i} : i32}} : ({T8}) -> ()' for i in deallocs)
     return f"""
 builtin.module {{
-  func.func public @f(%b0 : {T8}, %b1 : {T8}, %o0 : index, %o1 : index, %lb : index, %ub : index, %st : index) {{
+  func.func public @f(%b0 : {T8}, %b1 : {T8}, %o0 : index, %o1 : index, %lb : index, %ub : index, %st : index, %c0 : i1, %c1 : i1) {{
     %k0 = arith.constant 0 : index
     %k1 = arith.constant 1 : index
     %k2 = arith.constant 2 : index
@@ -127,7 +137,17 @@ builtin.module {{
 
 def view_scoped(prog):
     """views must be defined before use and not inside loops that other statements escape: keep views at top level."""
-    return all(s[0] != "view" for st in prog if st[0] == "for" for s in st[1])
+    def inner(st):
+        if st[0] == "for":
+            return list(st[1])
+        if st[0] == "if":
+            return list(st[2]) + list(st[3] or [])
+        return []
+
+    def ok(stmts):
+        return all(s[0] != "view" and ok(inner(s)) for s in stmts)
+
+    return all(ok(inner(st)) for st in prog)
 
 
 def region_of(v):
@@ -205,7 +225,7 @@ def case_prog(case, K=2):
         o0, o1 = z3.BitVec("o0", 32), z3.BitVec("o1", 32)
         lb, ub, st = z3.BitVec("lb", 32), z3.BitVec("ub", 32), z3.BitVec("st", 32)
         E.assume(z3.And(o0 >= 0, o0 <= 4, o1 >= 0, o1 <= 4, st > 0, st < 64, lb >= 0, lb < 64, ub >= 0, ub < 64))
-        args = bufs + [o0, o1, lb, ub, st]
+        args = bufs + [o0, o1, lb, ub, st, z3.BitVec("c0", 1), z3.BitVec("c1", 1)]
         ev = run_trace(m, args, None, K)
         # (ii) race freedom per epoch
         epoch = []
